@@ -34,7 +34,7 @@ LEVELS.update({
         "technique": "Lean 4 proofs (direct, list lemmas) + decide on regenerated source facts + exhaustive differential run incl. real file system",
     },
     "C18": {
-        "text": "Kernel-checked theorems about a protocol model of repl.AutoSave over an abstract file system, for every old content incl. no file, every new state, every crash index with any in-flight fragment, every failing step with any kept prefix: afterwards .gr holds the complete old or the complete new version; an error return leaves the old one; a normal return installed the new one (or the save was skipped and touched nothing); no other file changes. The order of the calls in AutoSave and the writes of SaveGlobals are regenerated facts with expectation theorems. A real child process is killed at every crash point / has every write fail for states of 0-50 bindings (~350 quick / ~1300 thorough runs) and .gr, the temp file and a fresh auto-load are compared with the model.",
+        "text": "Kernel-checked theorems about a protocol model of repl.AutoSave over an abstract file system, for every old content incl. no file, every new state, every crash index with any in-flight fragment, every failing step with any kept prefix: afterwards .gr holds the complete old or the complete new version; an error return leaves the old one; a normal return installed the new one (or the save was skipped and touched nothing); no other file changes. The order of the calls in AutoSave and the writes of SaveGlobals are regenerated facts with expectation theorems. A real child process is killed at every crash point / has every write fail for states of 0-50 bindings (~350 quick / ~850 thorough runs) and .gr, the temp file and a fresh auto-load are compared with the model.",
         "design_ref": "DESIGN.md section 7, C18",
         "note": _TB + "Assumed of the OS (not proved): rename(2) atomic and completed writes durable with respect to process death; power loss/fsync outside the property. Left-over temp files after a crash or a failed save are observed, not part of the property.",
         "technique": "Lean 4 proof by induction on the step list + crash/fault injection through build-tag-guarded hooks in child processes",
